@@ -666,6 +666,19 @@ func (a *Act) intrinsic(name string, fv FuncV, args []Value) (Value, bool) {
 		return nil, true
 	case "verifFlag":
 		return BoolC(in.flags[argStr(args[0])]), true
+	case "verifBytesEqual":
+		x, y := args[0].(SliceV), args[1].(SliceV)
+		if !x.len.IsConst() || !y.len.IsConst() {
+			panic(unsupported("verifBytesEqual on slices of symbolic length"))
+		}
+		if x.len.val != y.len.val {
+			return False, true
+		}
+		eq := True
+		for i := 0; i < int(x.len.val); i++ {
+			eq = And(eq, Eq(a.sliceElem(x, i).(*Term), a.sliceElem(y, i).(*Term)))
+		}
+		return eq, true
 	case "verifSymbolic":
 		return True, true
 	case "verifCase":
